@@ -9,7 +9,7 @@ TRUST = [
 PROPS = {
     "C16": {
         "title": "Public algebraic helpers satisfy their defining identities",
-        "rule": "seeded random cases: (lc-arith) op sequences of length 1..12 over += -= *= with (coeff,lc), lc, constants on LinearCombination, value compared after every op with a shadow value under a random assignment, one operand in thirty with 20..400 terms (repeated labels, constants); (evaluate-query-set) random labelled univariate / multilinear polynomial sets and query sets with shared labels and point values, compared with independent Horner / hypercube evaluation; (succinct-check-poly) k=0..10 challenges incl. 0/1, evaluate(z) vs Horner(compute_coeffs) vs the product definition. Distinct = distinct (scheme, class, descriptor) SHA-256 hashes; every case is non-trivial (the oracle has no precondition).",
+        "rule": "seeded random cases: (lc-arith) op sequences of length 1..12 over += -= *= with (coeff,lc), lc, constants on LinearCombination, value compared after every op with a shadow value under a random assignment, one operand in thirty with 20..400 terms (repeated labels, constants), operands built by push on an empty combination, by `new` from LCTerm values or by `new` from label strings, one operand in ten a copy of the accumulator itself; (evaluate-query-set) random labelled univariate / multilinear polynomial sets and query sets with shared labels and point values, compared with independent Horner / hypercube evaluation; (succinct-check-poly) k=0..10 challenges incl. 0/1, evaluate(z) vs Horner(compute_coeffs) vs the product definition. Distinct = distinct (scheme, class, descriptor) SHA-256 hashes; every case is non-trivial (the oracle has no precondition).",
         "required_classes": ["lc-arith", "evaluate-query-set", "succinct-check-poly"],
         "technique": "runtime monitoring: shadow-value oracle over random operation sequences + reference evaluators",
         "level_text": "Randomised differential monitoring of the public helper API against independent reference computations; 10^5 (quick) to 3*10^6 (thorough) oracle evaluations per run. Adequate because the helpers are pure functions with tiny state, so diverse random inputs reach every branch (each operator, One/label terms, zero/one coefficients, k=0..10).",
@@ -147,7 +147,7 @@ PROPS.update({
 PROPS.update({
     "C14": {
         "title": "Streaming KZG",
-        "rule": "(time-vs-space) seeded degrees 0..256 of all shapes, key sizes >= degree, MSM buffers {1,2,3,7,64,2^20}, 1..8 distinct points: commitment, evaluation, proof of the space prover == time prover == truth; multi-point proof == naive commitment to the quotient by the vanishing polynomial, remainder == naive remainder; verifier (built from either key) accepts the true values and not value+1. (folding-iterators) ALL 130 x 8 cells (length 1..130) x (0..7 challenges): FoldedPolynomialStream values and len() and FoldedPolynomialTree per-level sequences and depth == naive even/odd folding with zero padding. (folding-commit-open; one case in twelve with keys of one or two powers) the folded stream handed to the space committer / prover == time prover on the explicitly folded polynomial; commit_folding == per-level time commitments; open_folding proof == sum eta_i * commitment(quotient_i), remainders == naive remainders. A third of the multi-point sets are structured so that the vanishing polynomial has zero coefficients between its ends ({a,-a}, three points summing to zero, three with zero pair sum, cosets of roots of unity)." + DIST,
+        "rule": "(time-vs-space) seeded degrees 0..256 of all shapes, key sizes >= degree, MSM buffers {1,2,3,7,64,2^20}, 1..8 distinct points: commitment, evaluation, proof of the space prover == time prover == truth; multi-point proof == naive commitment to the quotient by the vanishing polynomial, remainder == naive remainder; verifier (built from either key) accepts the true values and not value+1. (folding-iterators) ALL 130 x 8 cells (length 1..130) x (0..7 challenges): FoldedPolynomialStream values and len() and FoldedPolynomialTree per-level sequences and depth == naive even/odd folding with zero padding. (folding-commit-open; one case in twelve with keys of one or two powers) the folded stream handed to the space committer / prover == time prover on the explicitly folded polynomial; commit_folding == per-level time commitments; open_folding proof == sum eta_i * commitment(quotient_i), remainders == naive remainders. A third of the multi-point sets are structured so that the vanishing polynomial has zero coefficients between its ends ({a,-a}, three points summing to zero, three with zero pair sum, cosets of roots of unity). (batch-and-keys) 1..4 polynomials of different lengths, eta in {0, 1, 128-bit, random}: time batch_commit == space commit per polynomial == naive MSM; batch_open_multi_points == naive commitment to the quotient of sum eta^i p_i == sum eta^i * (space-prover proof of p_i), accepted by verify_multi_points with the true values and not with one value+1; CommitterKeyStream::as_committer_key(d) == the first d published powers; index_by(indices)[i] == sum of the powers g_j with indices[j] == i (repeated and missing indices, shorter index lists)." + DIST,
         "required_classes": ["commit-time-equals-space", "open-time-equals-space", "multi-point-time-equals-space", "space-proof-verifies", "folded-stream", "folded-tree", "folded-stream-commit", "commit-folding", "open-folding"],
         "technique": "runtime monitoring: differential oracle (space vs time prover) + naive reference model of folding and polynomial division",
         "level_text": "Differential and reference-model monitoring over the index-arithmetic-heavy streaming code; the length x depth grid of the folding iterators is enumerated completely in every run.",
